@@ -66,6 +66,7 @@ LIB_PANIC = {
     "jiff::timestamp::Timestamp::saturating_add": None,
     "libsodium_rs::crypto_stream::xchacha20::Nonce::from_bytes": None,
     "libsodium_rs::ensure_init": "sodium-init",
+    "argon2::params::ParamsBuilder::p_cost": "argon2-pcost",
 }
 JIFF_OPS = ("jiff::",)
 
@@ -432,7 +433,7 @@ def run(ctx):
                             verdicts.append(v)
                 why = None
                 how = None
-                if kind.startswith("lib:"):
+                if kind.startswith("lib:") and not verdicts:
                     verdicts = ["dependency API documented to panic: " + short(callee)]
                 if kind == "operator":
                     og = og or Origins(f)
